@@ -126,7 +126,13 @@ func LoadProgram(dir, goarch string, overlay map[string][]byte) (*Program, error
 	p := &Program{Dir: dir, Config: cfgName, Fset: fset, Pkgs: map[string]*packages.Package{}, overlay: overlay}
 	for _, pk := range pkgs {
 		if len(pk.Errors) > 0 {
-			return nil, fmt.Errorf("package %s has errors: %v", pk.PkgPath, pk.Errors[0])
+			msg := ""
+			for i, e := range pk.Errors {
+				if i < 4 {
+					msg += " | " + e.Error()
+				}
+			}
+			return nil, fmt.Errorf("package %s has errors:%s", pk.PkgPath, msg)
 		}
 		if pk.Types == nil || pk.TypesInfo == nil {
 			return nil, fmt.Errorf("package %s has no type information", pk.PkgPath)
